@@ -19,7 +19,7 @@ func init() { fw.Register(c08{}) }
 
 func (c08) ID() string { return "C08" }
 func (c08) Rule() string {
-	return "every token string of length <=3 (thorough: <=4) over a 62-token alphabet (identifier, numbers, string, both comments, every operator and delimiter, keywords and builtins, newline, NUL, byte 0xC3), " +
+	return "every token string of length <=3 (thorough: <=4) over a 65-token alphabet (identifier, numbers, string, both comments, every operator and delimiter, keywords and builtins, newline, NUL, byte 0xC3), " +
 		"joined with and without spaces, in file and line mode; random token sequences up to 40 tokens; every token-boundary truncation and byte mutations of grammar-generated programs and of the shipped corpus. " +
 		"Each input is lexed+parsed under recover(); accepted trees are walked for missing children and printed in normal/compact/all-parens mode; error messages are checked to quote lines of the input. " +
 		"non-trivial = input for which the parser produced >=1 statement or >=1 error; distinct = distinct (input, mode)."
@@ -42,6 +42,8 @@ var c08Alphabet = []string{
 	",", ";", "(", ")", "{", "}", "[", "]",
 	"if", "else", "for", "func", "return", "break", "macro", "quote", "unquote", "len", "print", "true", "del", "catch",
 	"\n", "\x00", "\xc3", "`r`", "\r", "// d",
+	// unterminated strings: ending inside an escape (the lexer runs past the end of the input) and a raw one
+	"\"a\\", "\"\\u00", "`u",
 }
 
 type c08Case struct {
